@@ -16,10 +16,7 @@ def run_case(params, prefix):
     fails = []
     if ex.hang:
         run_ = res.get("run")
-        key = base + "|hang"
-        if run_ is not None and _recov.sibling_failures(run_):
-            # genuine defect recorded in known_findings.json (DESIGN 5, F13): keyed by cause and program, not by plan
-            key = f"C16|hang|cause=two-steps-of-one-job-fail-with-overlapping-recoveries|prog={params['spec']['prog']}"
+        key = _recov.hang_key("C16", params, run_, base)  # recorded causes are keyed by cause and program, not by plan
         fails.append((key, f"executor never returns; failures {run_.fail_sites if run_ else None}; pending {ex.pending[:6]}; "
                            f"executions {run_.exec_log if run_ else None}"))
     elif ex.error:
